@@ -230,25 +230,7 @@ fn c07_o5_referrals_merged() {
     std::mem::forget(core);
 }
 
-//@ ob: C08.O5
-//@ tier: thorough
-//@ cap: 2400
-//@ mem: 20
-//@ standins: tracing lru vcoll
-//@ also: C18 C09
-//@ desc: acknowledgements and errors are credited only to the put that owns the transaction id, and never when the reply is flagged read-only: with two puts in flight (different targets, one request each) and a reply (ping-shaped ack or error with any code; tid of put A, of put B or of neither; read-only flag symbolic), exactly the owning put's counters move -- ack: acknowledgements + 1; error: that code tallied once -- and only if the reply is not read-only; every other put is untouched; nothing is surfaced and nothing is offered to the routing table for a put reply
-//@ bounds: two PutQuery objects (announce_peer for T5, put_immutable for T6) with one tracked tid each; one reply; symbolic kind / tid choice / read-only bit / i32 error code; no lookups active; unwind 8
-//@ stubs: RoutingTable::add -> probe counting calls; other kinds' validators -> flagged cuts; Instant::now; getrandom::fill
-//@ functions: Core::handle_response (read-only guard, put dispatch), PutQuery::{inflight,success,error}
-#[kani::proof]
-#[kani::stub(crate::common::immutable::validate_immutable, vi_cut)]
-#[kani::stub(crate::common::mutable::MutableItem::from_dht_message, mh::from_dht_message_cut)]
-#[kani::stub(crate::common::signed_announce::SignedAnnounce::from_dht_response, sh::from_dht_cut)]
-#[kani::stub(crate::common::routing_table::RoutingTable::add, rt_add_probe)]
-#[kani::stub(std::time::Instant::now, clock::now)]
-#[kani::stub(getrandom::fill, rnd::fill)]
-#[kani::unwind(8)]
-fn c08_o5_put_replies_credited_to_owner() {
+fn put_reply_scenario(is_err: bool) {
     use crate::common::{AnnouncePeerRequestArguments, PutImmutableRequestArguments, PutRequestSpecific};
     use crate::core::PutQuery;
     clock::set(0);
@@ -263,11 +245,12 @@ fn c08_o5_put_replies_credited_to_owner() {
     core.put_queries.insert(tb, qb);
     let which: u8 = kani::any();
     kani::assume(which < 3);
-    let tid = match which { 0 => 7u32, 1 => 9, _ => 11 };
+    let tid = if which == 0 { 7u32 } else if which == 1 { 9 } else { 11 };
     let ro: bool = kani::any();
-    let is_err: bool = kani::any();
     let code: i32 = kani::any();
     let from = SocketAddrV4::new([10, 0, 0, 9].into(), 6881);
+    // the message kind is fixed per instance (a symbolic enum discriminant makes every move of the
+    // message a byte-level case split)
     let mt = if is_err {
         MessageType::Error(ErrorSpecific { code, description: String::new() })
     } else {
@@ -298,10 +281,54 @@ fn c08_o5_put_replies_credited_to_owner() {
         assert!(unsafe { RT_ADDS.v } == 0, "C09/C18.O4 replies that are read-only or match no in-flight request teach nothing");
     }
     assert!(!cut_reached(), "CUT: a lookup validator reached for a put reply");
-    kani::cover!(credit_a && !is_err);
-    kani::cover!(credit_b && is_err && code == 301);
+    kani::cover!(credit_a);
+    kani::cover!(credit_b && (!is_err || code == 301));
     kani::cover!(ro && which == 0);
     kani::cover!(which == 2);
     std::mem::forget(out);
     std::mem::forget(core);
+}
+
+//@ ob: C08.O5a
+//@ tier: thorough
+//@ cap: 2400
+//@ mem: 24
+//@ standins: tracing lru vcoll
+//@ also: C18 C09
+//@ desc: acknowledgements are credited only to the put that owns the transaction id, and never when the reply is flagged read-only: with two puts in flight (different targets, one request each) and a ping-shaped ack (tid of put A, of put B or of neither; read-only flag symbolic), exactly the owning put's acknowledgement counter moves, and only if the reply is not read-only; the other put is untouched; nothing is surfaced; a read-only or foreign reply teaches the routing table nothing
+//@ bounds: two PutQuery objects (announce_peer for T5, put_immutable for T6) with one tracked tid each; one reply; symbolic tid choice / read-only bit; no lookups active; unwind 8
+//@ stubs: RoutingTable::add -> probe counting calls; lookup validators -> flagged cuts; Instant::now; getrandom::fill
+//@ functions: Core::handle_response (read-only guard, put dispatch), PutQuery::{inflight,success}
+#[kani::proof]
+#[kani::stub(crate::common::immutable::validate_immutable, vi_cut)]
+#[kani::stub(crate::common::mutable::MutableItem::from_dht_message, mh::from_dht_message_cut)]
+#[kani::stub(crate::common::signed_announce::SignedAnnounce::from_dht_response, sh::from_dht_cut)]
+#[kani::stub(crate::common::routing_table::RoutingTable::add, rt_add_probe)]
+#[kani::stub(std::time::Instant::now, clock::now)]
+#[kani::stub(getrandom::fill, rnd::fill)]
+#[kani::unwind(8)]
+fn c08_o5a_put_acks_credited_to_owner() {
+    put_reply_scenario(false);
+}
+
+//@ ob: C08.O5b
+//@ tier: thorough
+//@ cap: 2400
+//@ mem: 24
+//@ standins: tracing lru vcoll
+//@ also: C18 C09 C17
+//@ desc: error replies (any i32 code, 301/302 included) are tallied only for the put that owns the transaction id, once, with their code, and never when the reply is flagged read-only; the other put is untouched; nothing is surfaced
+//@ bounds: as C08.O5a with an error reply carrying a symbolic i32 code
+//@ stubs: as C08.O5a
+//@ functions: Core::handle_response (read-only guard, put dispatch), PutQuery::{inflight,error}
+#[kani::proof]
+#[kani::stub(crate::common::immutable::validate_immutable, vi_cut)]
+#[kani::stub(crate::common::mutable::MutableItem::from_dht_message, mh::from_dht_message_cut)]
+#[kani::stub(crate::common::signed_announce::SignedAnnounce::from_dht_response, sh::from_dht_cut)]
+#[kani::stub(crate::common::routing_table::RoutingTable::add, rt_add_probe)]
+#[kani::stub(std::time::Instant::now, clock::now)]
+#[kani::stub(getrandom::fill, rnd::fill)]
+#[kani::unwind(8)]
+fn c08_o5b_put_errors_credited_to_owner() {
+    put_reply_scenario(true);
 }
